@@ -103,6 +103,8 @@ def make_array(arr, names=None, ds=None, name=None):
 
     nm = names or Names()
     data = np.array([float("nan") if v == "nan" else float(v) for v in arr["flat"]], dtype="float64").reshape(arr["shape"])
+    if arr.get("dtype") in ("float32", "int64", "int32"):
+        data = data.astype(arr["dtype"])       # small integers: exact in every one of these types
     da = xr.DataArray(data, dims=[nm(d) for d in arr["dims"]], name=name)
     if ds is not None:
         da = da.assign_coords({d: ds[d] for d in da.dims if d in ds.coords})
